@@ -119,6 +119,8 @@ def option_defaults(fn):
         ca.CodeGenerator = orig
         shutil.rmtree(tmp, ignore_errors=True)
     d = {k: v for k, v in captured.items() if k != "force_canonical"}
+    # options that are not switches (an indentation width, a prefix) are not part of the modelled on/off lattice: left at their defaults
+    d = {k: v for k, v in d.items() if isinstance(v, bool)}
     if not d or not all(isinstance(k, str) and isinstance(v, bool) for k, v in d.items()):
         raise MachineryError(f"{fn.__module__}.generate_code: option dictionary is not str -> bool: {d}")
     return d
